@@ -12,6 +12,9 @@ import Jap.Core.Typing
 import Jap.Lemmas.TypingNum
 import Jap.Lemmas.TypingCodec
 import Jap.Lemmas.TypingTd
+import Jap.Lemmas.TypingB64
+import Jap.Lemmas.TypingUuid
+import Jap.Lemmas.TypingText
 import Jap.Gen.Registered
 
 namespace Jap.Props.C20
@@ -313,6 +316,101 @@ theorem C20_td_tie :
     Jap.Gen.Registered.tdDayTrigger = tdDayTrigger ∧
     Jap.Gen.Registered.tdReFunction = "match" ∧
     Jap.Gen.Registered.tdConversion = "float" := by decide
+
+/-! ## `bytes` / `bytearray` (base64, standard alphabet, padding) -/
+
+/-- every byte string (empty, every length modulo 3) comes back from its base64 text -/
+theorem C20_bytes_rt (bs : List Nat) (h : ∀ b ∈ bs, b < 256) : b64decode (b64encode bs) = .ok bs :=
+  b64decode_b64encode bs h
+
+/-- the hypothesis (the list is a byte string) is satisfiable, by all residues of the length -/
+example : (∀ b ∈ ([] : List Nat), b < 256) ∧ (∀ b ∈ [255], b < 256) ∧ (∀ b ∈ [0, 255], b < 256) ∧ (∀ b ∈ [1, 2, 3], b < 256) := by
+  decide
+example : b64encode [] = [] ∧ b64encode [104, 105] = "aGk=".toList ∧ b64encode [255] = "/w==".toList ∧
+    b64encode [0, 16, 131] = "ABCD".toList := by decide +kernel
+/-- the decoder as it is: junk is skipped, input after a completed pad is ignored, a dangling sextet is an error -/
+example : b64decode "a G\nk=".toList = .ok [104, 105] ∧ b64decode "aGk=aGk=".toList = .ok [104, 105] ∧
+    b64decode "aGk".toList = .error .value ∧ b64decode "a".toList = .error .value ∧ b64decode "=aGk=".toList = .ok [104, 105] := by
+  decide +kernel
+
+/-! ## `uuid.UUID` (canonical 8-4-4-4-12 lower-case text ↔ 128-bit value) -/
+
+theorem C20_uuid_rt (n : Nat) (h : n < 2 ^ 128) : uuidDeser (uuidStr n) = .ok n :=
+  uuidDeser_uuidStr n h
+
+theorem C20_uuid_str_injective (m n : Nat) (hm : m < 2 ^ 128) (hn : n < 2 ^ 128) (h : uuidStr m = uuidStr n) : m = n := by
+  have e := C20_uuid_rt m hm
+  rw [h, C20_uuid_rt n hn] at e
+  exact (Except.ok.inj e).symm
+
+example : uuidStr 0 = "00000000-0000-0000-0000-000000000000".toList := by decide +kernel
+example : uuidStr (2 ^ 128 - 1) = "ffffffff-ffff-ffff-ffff-ffffffffffff".toList := by decide +kernel
+example : uuidStr 0x12345678123456781234567812345678 = "12345678-1234-5678-1234-567812345678".toList := by decide +kernel
+/-- the constructor as it is: braces, `urn:uuid:`, upper case, a `0x` prefix; 31 digits are rejected -/
+example : uuidDeser "{urn:uuid:12345678-1234-5678-1234-56781234567F}".toList = .ok 0x1234567812345678123456781234567f ∧
+    uuidDeser "0x345678123456781234567812345678".toList = .ok 0x345678123456781234567812345678 ∧
+    uuidDeser "12345678-1234-5678-1234-56781234567".toList = .error .value ∧
+    uuidDeser "-0000000000000000000000000000001".toList = .error .value := by decide +kernel
+
+/-! ## a dumped registered value written plain is read back as a string (`C20_text_safe`)
+
+`resolveLoad` / `resolveDump` are the scalar-resolution model of engine "Scalar" (C01) over the tables
+regenerated from the live Loader and Dumper classes (`Jap.Gen.Resolvers`). -/
+
+open Jap.Scalar in
+/-- for EVERY text (hence for the serialised form of every registered type): either the dumper's own resolver
+does not give `str` — then the emitter cannot write it plain and quotes it — or the loader reads it as a string.
+(C01_resolver_agreement; `analyze_scalar`'s additional quoting can only add quotes.) -/
+theorem C20_text_safe (s : String) : resolveDump s ≠ .str ∨ resolveLoad s = .str := by
+  by_cases h : resolveDump s = .str
+  · exact Or.inr (agree_words _ h)
+  · exact Or.inl h
+
+open Jap.Scalar Jap.TextSafe in
+/-- `range(…)`: always a plain string for the loader (all three forms, every sign) -/
+theorem C20_text_plain_range (r : Range) : resolveLoad (String.ofList (rangeSer r)) = .str := by
+  simpa [resolveLoad] using safe_of_accepts mRange _ range_cert _ (range_accepts r)
+
+open Jap.Scalar Jap.TextSafe in
+/-- UUID text: always a plain string (also `12345678-…`, `1234567e-1234-…`, `0e123456-…`) -/
+theorem C20_text_plain_uuid (n : Nat) : resolveLoad (String.ofList (uuidStr n)) = .str := by
+  simpa [resolveLoad] using safe_of_accepts mUuid _ uuid_cert _ (uuid_accepts n)
+
+open Jap.Scalar Jap.TextSafe in
+/-- timedelta with a day part (`D day(s), H:MM:SS[.ffffff]`): a plain string -/
+theorem C20_text_plain_td_days (t : TD) (h : t.days ≠ 0) : resolveLoad (String.ofList (tdStr t)) = .str := by
+  have e : tdStr t = tdDayPart t.days ++ (tdClock t.secs ++ tdFrac t.us) := by simp [tdStr, h]
+  rw [e]
+  simpa [resolveLoad] using safe_of_accepts mTdDays _ tdDays_cert _ (tdDays_accepts t.days _)
+
+open Jap.Scalar Jap.TextSafe in
+/-- base64 text that ends in padding (length of the byte string not a multiple of 3): a plain string -/
+theorem C20_text_plain_b64_padded (bs : List Nat) (h : ∀ b ∈ bs, b < 256) (hl : bs.length % 3 ≠ 0) :
+    resolveLoad (String.ofList (b64encode bs)) = .str := by
+  simpa [resolveLoad] using safe_of_accepts mB64Pad _ b64Pad_cert _ (b64Pad_accepts bs h hl 0 (Or.inl rfl))
+
+example : (⟨-3, 0, 5⟩ : TD).days ≠ 0 := by decide
+example : [1, 2].length % 3 ≠ 0 := by decide
+
+/- Full statements, FALSE:
+     ∀ t, t.Normalised → resolveLoad (tdStr t) = .str        (clock-only forms are YAML 1.1 sexagesimal numbers)
+     ∀ bs, resolveLoad (b64encode bs) = .str                  (unpadded base64 can spell a number / bool / null)
+   Witnesses below; for these texts `resolveDump` is not `str` either, so the dump quotes them (`C20_text_safe`),
+   and from the command line the text reaches the deserializer without going through the YAML loader. -/
+open Jap.Scalar in
+theorem C20_text_plain_counterexamples :
+    tdStr ⟨0, 3600, 0⟩ = "1:00:00".toList ∧ resolveLoad "1:00:00" = .int ∧ resolveDump "1:00:00" = .int ∧
+    tdStr ⟨0, 0, 500000⟩ = "0:00:00.500000".toList ∧ resolveLoad "0:00:00.500000" = .float ∧
+      resolveDump "0:00:00.500000" = .float ∧
+    b64encode [0xd7, 0x6d, 0xf8] = "1234".toList ∧ resolveLoad "1234" = .int ∧ resolveDump "1234" = .int ∧
+    b64encode [0xb6, 0xbb, 0x9e] = "true".toList ∧ resolveLoad "true" = .bool ∧
+    b64encode [0x9e, 0xe9, 0x65] = "null".toList ∧ resolveLoad "null" = .null ∧
+    b64encode [0xd5, 0xed, 0x74] = "1e10".toList ∧ resolveLoad "1e10" = .float := by
+  decide +kernel
+
+/-- … while the zero clock and the texts of the other forms are plain strings -/
+example : Jap.Scalar.resolveLoad "0:00:00" = .str ∧ Jap.Scalar.resolveLoad "aGk=" = .str ∧
+    Jap.Scalar.resolveLoad "-1 day, 23:59:59.999999" = .str := by decide +kernel
 
 /-! ## registered serializers / deserializers -/
 
